@@ -286,7 +286,19 @@ class Checker:
                 if r[2] != "ctor":
                     rep.notes.append("route %s refused for %s: %s" % (r[2], r[3], type(exc).__name__))
                 continue
-            vals.append((r, v, ri.canon(kind, v), repr(v), hash(v)))
+            try:
+                canon_v = ri.canon(kind, v)
+            except AssertionError as exc:
+                # the value cannot be read back as (name, winding) objects: it is not the value its
+                # construction route describes (e.g. an object whose name is itself an object)
+                rep.count("oracle:unreadable-value:FAIL")
+                self.unreadable = getattr(self, "unreadable", 0) + 1
+                if self.unreadable <= 3:
+                    rep.violation("route %s builds a %s that is not made of the named objects it was given: %s"
+                                  % (r[2], kind, exc),
+                                  {"class": cname, "recipe": r, "repr": repr(v)[:400]})
+                continue
+            vals.append((r, v, canon_v, repr(v), hash(v)))
             rep.count("value:%s:%s" % (cname, kind))
             rep.count("route:" + r[2])
         n = len(vals)
